@@ -197,6 +197,38 @@ def jacobian_case(ctx, S, rng, kmax):
         ctx.violation("c12:jacobian-df", "gen_jacobian()[1] differs from the product-rule partial derivatives by %.3e" % core.fl(worstd), replay)
 
 
+def jacobian_sweep(ctx, S, rng, tier):
+    """every length k = 1..60 of the property's range (not a sample of lengths): the value list and
+    one or three columns of the Jacobian against `jacF` / `jacCol` (= the parts of `jacSpec`,
+    theorem C12b.jacSpec_parts)"""
+    d = ctx.driver()
+    for k in range(1, 61):
+        for parity in ([int(rng.integers(0, 2))] if tier == "quick" else [0, 1]):
+            red = [float(x) for x in rng.uniform(-0.8, 0.8, size=k)] if rng.random() < 0.7 else gens.phases(rng, k)[0]
+            with core.quiet():
+                p = S.SymmetricQSPProtocol(reduced_phases=red, parity=parity)
+                f, df = p.gen_jacobian()
+            f = np.asarray(f); df = np.asarray(df)
+            ctx.count("jacobian-all-lengths:parity=%d" % parity)
+            ctx.case(["jacsweep", parity, red], True, {"kind": "jacobian, all-lengths sweep", "parity": parity, "k": k})
+            replay = {"kind": "jacobian", "parity": parity, "reduced": red}
+            if f.shape != (k,) or df.shape != (k, k):
+                ctx.violation("c12:jacobian-shape", "gen_jacobian shapes %s %s for k=%d" % (f.shape, df.shape, k), replay)
+                continue
+            tol = Fraction(1, 10 ** 10) * k
+            mf = pl(d.ask("sym.jacf %d 50 %s" % (parity, rl(F(x) for x in red))))
+            worst = max(abs(F(float(f[i])) - mf[i]) for i in range(k))
+            if worst > tol:
+                ctx.violation("c12:jacobian-f", "gen_jacobian()[0] differs from the Chebyshev coefficients of Im<0|U|0> by %.3e (k=%d)" % (core.fl(worst), k), replay)
+                continue
+            for j in sorted(set(int(v) for v in rng.integers(0, k, size=1 if tier == "quick" else 3))):
+                mc = pl(d.ask("sym.jaccol %d 50 %d %s" % (parity, j, rl(F(x) for x in red))))
+                worstd = max(abs(F(float(df[i, j])) - mc[i]) for i in range(k))
+                if worstd > tol:
+                    ctx.violation("c12:jacobian-df", "column %d of gen_jacobian()[1] differs from the product-rule partial derivatives by %.3e (k=%d)" % (j, core.fl(worstd), k), dict(replay, column=j))
+                    break
+
+
 def run(tier, seed):
     ctx = core.Ctx(PROP, tier, seed, "proof", ["C12", "C12b", "C10"])
     ctx.axioms = core.audit(ctx.modules)
@@ -210,11 +242,12 @@ def run(tier, seed):
         history_response_case(ctx, S, ctx.rng)
     for _ in range(40 if q else 300):
         jacobian_case(ctx, S, ctx.rng, 12 if q else 30)
-    ctx.assumptions = ["Jacobian: the product-rule specification is computed exactly by the model; that it is the true derivative is the product rule "
-                       "(stated, not yet machine-checked); numpy.fft inside gen_jacobian is an oracle whose result is compared"]
+    jacobian_sweep(ctx, S, ctx.rng, tier)
+    ctx.assumptions = ["Jacobian: the product-rule specification is computed exactly by the model; that it is the true derivative is "
+                       "proved (C12b) for the functional at the exact pairs, the model evaluates it at 50/70-bit enclosure centres; numpy.fft inside gen_jacobian is an oracle whose result is compared"]
     return ctx.finish(
         rule="reduced-phase vectors of length 1..60 in 7 patterns, both parities, update histories of length 0..20 (layout, exact); responses at "
-             "generic points and at +-1, 0 against the C10 enclosure, also interleaved with updates (observations between updates); Jacobians for k <= 12 (quick) / 30 against the exact specification; "
+             "generic points and at +-1, 0 against the C10 enclosure, also interleaved with updates (observations between updates); Jacobians for k <= 12 (quick) / 30 against the full specification and, for EVERY k in 1..60, the value list and 1 (quick) / 3 columns; "
              "distinct = distinct (kind, parity, phases, history)")
 
 
